@@ -729,9 +729,31 @@ def c10_full(res, ctx):
 
 CHECKS = {'C14': c14, 'C15': c15, 'C19': c19, 'C04': c04, 'C07': _engine('c07'), 'C08': _engine('c08'), 'C09': _engine('c09'), 'C11': _engine('c11'), 'C16': _engine('c16'), 'C17': c17, 'C01': c01, 'C02': c02, 'C03': c03, 'C05': c05, 'C06': c06, 'C10': c10_full, 'C12': c12, 'C13': c13, 'C18': c18}
 
+LEGAL = 'board hypotheses of the theorems: wf b (bitboards disjoint and < 2^64, one king per side) and legal_pos (abs b) -- every position reachable in play satisfies them (C02_legal_pos_preserved); FEN inputs outside them are compared only by the correspondence run'
+CLOCK = 'half-move clock < 4096 (12-bit previous-halfmove field of Move); beyond it: known finding halfmove_ge_4096'
+GOODC = 'search theorems: good_chess / good_c10 = wf, rights consistent, e.p. square free, side not to move not in check, half-move clock + iterations + 130 < 4096'
+ORACLE = 'the runtime (arrival of stop/quit, inbox contents at each poll, clock readings, OS scheduling, channel delivery) enters as a universally quantified oracle'
+KEYS = '64-bit Zobrist keys identify positions wherever positions are compared by key (no collision); per position discharged by the decidable checker ply_unique_clock_check where stated'
 ASSUME = {
-    'C18': ['std HashMap/VecDeque behave as a map and a queue'],
-    'C10': ['64-bit Zobrist keys identify positions (no collision among the positions of one game/line)', 'hypotheses parity_ok / no_dist2 on the key sequence (chess facts, not proved)'],
+    'C01': [LEGAL, 'Rules.v is the reading of the FIDE laws (validated against published perft numbers)'],
+    'C02': [LEGAL, 'clocks below u32::MAX (known finding clock_at_u32_max)'],
+    'C03': ['wf b, rights_wf b (a held castling right implies king and rook at home)', CLOCK],
+    'C04': ['sq < 64; the tables are those dumped from the compiled crate through the cfg hook'],
+    'C05': [LEGAL],
+    'C06': ['wf b, castle_wf, ep_wf for the incremental statement; regenerated obligations keys_ok / keys_rows_ok / gen_masks_ok'],
+    'C07': [GOODC, ORACLE, 'full-move number + side to move < 2^25 (known finding fullmove_ge_2p25)'],
+    'C08': [GOODC, KEYS, 'quiet oracle (no interruption) and plain go depth d for the exactness statements; full-move + depth < 2^24; no tree key equals 0 after position fen'],
+    'C09': [GOODC, ORACLE, 'the hook abort point sits where the real flag is polled'],
+    'C10': [GOODC, KEYS, 'hypotheses parity_ok / no_dist2 on the key sequence for C10_window_all (chess facts, not proved)'],
+    'C11': ['wf b; search part: legal_pos and full-move + depth < 2^20; full-move < 2^23 for mate scores (known finding fullmove_ge_2p23)'],
+    'C12': ['clocks < 2^32 for acceptance; FenSpec.v is the reading of the FEN grammar'],
+    'C13': [LEGAL, CLOCK],
+    'C14': [LEGAL, 'SanSpec.v is the reading of FIDE appendix C / PGN 8.2.3; non-standard SAN texts are outside the property'],
+    'C15': ['UciSpec.v is the reading of the UCI protocol text (GUI to engine)'],
+    'C16': [GOODC, ORACLE, KEYS + ' (pv legality)', 'UciOut.v is the reading of the UCI protocol text (engine to GUI); stdout interleaving of two threads is not modelled'],
+    'C17': ['std::io::Read contract: 1..=buf.len() bytes or 0 at end of input', LEGAL + ' (replay part)'],
+    'C18': ['std HashMap/VecDeque behave as a map and a queue', 'capacity >= 1'],
+    'C19': ['LichessApi.v is the transcription of the documented Bot API shapes; serde_derive semantics as modelled in Serde.v'],
 }
 
 def find_bad(pid, res):
